@@ -24,7 +24,7 @@ import json,sys,hashlib
 e=json.load(open(sys.argv[1]))
 e.pop('wall_s',None)
 c=e['coverage']
-for k in ('runs_per_hour','seeds_per_hour','threads'): c.pop(k,None)
+for k in ('runs_per_hour','seeds_per_hour','threads','slowest_run'): c.pop(k,None)   # timing / configuration, not results
 print(hashlib.sha256(json.dumps(e,sort_keys=True).encode()).hexdigest()[:16], c['log_digest'])
 PY
 )
